@@ -3,7 +3,7 @@ from checks import mcheck
 from contracts import lattice_vc as V
 from rtc import suites
 
-RULE = 'cases are a deterministic function of VERIF_SEED and the case number: small planar maps (2-5 nodes on the half-integer grid {0..4}^2; chain, one-way chain, cycle, star, grid, line, random edge sets, one-way feeders merging into one node; duplicated node locations and self-listed neighbours included; string, 1-based and 0-based integer labels), per suite also: a one-way block driven around more than once, feeders plus a linked parallel road, 3x3 / 4x4 street grids with sparse traces (non-emitting chains of depth >= 2); traces of 1-5 observations on the quarter grid (walks along the map with noise, on-road, sparse, outliers, repeats, random); one case in five first matches ANOTHER trace on the same matcher object; configurations over both matcher families, edge-only / node-and-edge states, noise in {0.09,.5,.55,1,2}, max_dist, max_dist_init, min_prob_norm, non-emitting on/off, width in {None,1,2,3}, avoid_goingback; histories of match / extend / widen (/ continue_with_distance where the suite says so)'
+RULE = 'cases are a deterministic function of VERIF_SEED and the case number: small planar maps (2-5 nodes on the half-integer grid {0..4}^2; chain, one-way chain, cycle, star, grid, line, random edge sets, one-way feeders merging into one node; duplicated node locations and self-listed neighbours included; string, 1-based and 0-based integer labels), per suite also: a one-way block driven around more than once, feeders plus a linked parallel road, 3x3 / 4x4 street grids with sparse traces (non-emitting chains of depth >= 2); traces of 1-5 observations on the quarter grid (walks along the map with noise, on-road, sparse, outliers, repeats, random); one case in five first matches ANOTHER trace on the same matcher object; one trace in five carries time stamps as a third component (x, y, t); configurations over both matcher families, edge-only / node-and-edge states, noise in {0.09,.5,.55,1,2}, max_dist, max_dist_init, min_prob_norm, non-emitting on/off, width in {None,1,2,3}, avoid_goingback; histories of match / extend / widen (/ continue_with_distance where the suite says so)'
 
 SPEC = {
     'level': 'other',
